@@ -56,6 +56,12 @@ class Bytes:
     def __repr__(self): return f'{self.n}*sizeof(T)'
 
 
+def as_bytes(v):
+    """k * sizeof(T) that the evaluator folded into a plain linear form (a constant count: `resize(1)`) is a byte count of k elements"""
+    if isinstance(v, Lin) and set(v.t) == {'sizeofT'} and v.c == 0 and v.t['sizeofT'] > 0: return Bytes(Lin.const(v.t['sizeofT']))
+    return v
+
+
 class MinVal:
     __slots__ = ('a', 'b')
     def __init__(self, a, b): self.a = a; self.b = b
@@ -396,10 +402,10 @@ class ContDomain(Domain):
             e = self.elem_of(ex, n.n('object'), st, fr)
             self.c_event(st, n, 'elem', 'destroy', e.ptr if (e is not None and e.ptr is not None) else e, None); return None
         if base in ('malloc',) and q in ('malloc', 'std::malloc'):
-            a = rv(0); p = Ptr(f'blk@{n.line}:{n.id}')
+            a = as_bytes(rv(0)); p = Ptr(f'blk@{n.line}:{n.id}')
             self.c_event(st, n, 'alloc', a, p); return p
         if base == 'realloc':
-            old = rv(0); a = rv(1); p = Ptr(f'blk@{n.line}:{n.id}')
+            old = rv(0); a = as_bytes(rv(1)); p = Ptr(f'blk@{n.line}:{n.id}')
             cnt = a.n if isinstance(a, Bytes) else a
             if isinstance(cnt, (Lin, int)) and as_lin(cnt) is not None:
                 if not hasattr(self, 'realloc_size'): self.realloc_size = {}
@@ -423,7 +429,7 @@ class ContDomain(Domain):
             if isinstance(tgt, ElemRef): tgt = tgt.ptr if tgt.ptr is not None else tgt
             self.c_event(st, n, 'elem', 'destroy', tgt, None); return None
         if base in ('memcpy', 'memmove'):
-            self.c_event(st, n, 'memcpy', rv(0), rv(1), rv(2)); return rv(0)
+            self.c_event(st, n, 'memcpy', rv(0), rv(1), as_bytes(rv(2))); return rv(0)
         if base == 'min' and len(args) == 2:
             a, b = as_lin(rv(0)), as_lin(rv(1))
             if a is not None and b is not None:
